@@ -13,7 +13,7 @@ RULES = [('irc', 'C18'), ('websocket', 'C17'), ('static serves', 'C16'), ('get_r
          ('done and timeout coincide', 'C06'), ('wait() that times out', 'C06'), ('exit code', 'C08'), ('does not return while events', 'C08'),
          ('raises when resumed from call', 'C06'), ('catches timeouterror', 'C06'), ('stale waitevent closures', 'C06'), ('poller discard', 'C10'),
          ('poll forgets', 'C10'), ('poll does not report', 'C10'), ('client._write', 'C11'), ('file._write', 'C11'),
-         ('http drops the parser', 'C14'), ('failing request or response handler', 'C14'), ('error responses carry', 'C14'),
+         ('http drops the parser', 'C14'), ('negative chunk size', 'C14'), ('failing request or response handler', 'C14'), ('error responses carry', 'C14'),
          ('epoll', 'C12'), ('late write', 'C12'), ('_closeq', 'C12'), ('_buffers', 'C12')]
 FILES = [('circuits/node/', 'C19'), ('circuits/core/events.py', 'C19'), ('circuits/web/parsers/http.py', 'C13'),
          ('circuits/web/http.py', 'C13'), ('circuits/net/sockets.py', 'C12'), ('circuits/core/pollers.py', 'C12')]
